@@ -3,4 +3,5 @@ CONSTANTS
   CombSet = {"WhenAny"}
   N = 4
   Fixed = FALSE
+  Follow = FALSE
 CHECK_DEADLOCK FALSE
